@@ -377,7 +377,17 @@ func (r *transport) handleCacheHit(
 		age := freshness.Age.Value + r.clock.Since(freshness.Age.Timestamp)
 		staleFor := age - freshness.UsefulLife
 		if staleFor >= 0 && staleFor < swr {
-			return r.handleStaleWhileRevalidate(req, stored, urlKey, freshness, ccReq)
+			return r.handleStaleWhileRevalidate(
+				req,
+				stored,
+				urlKey,
+				freshness,
+				ccReq,
+				refs,
+				refIndex,
+				isRespNoCacheQualified,
+				respNoCacheFieldsSeq,
+			)
 		}
 	}
 
@@ -430,7 +440,19 @@ func (r *transport) handleStaleWhileRevalidate(
 	urlKey string,
 	freshness *internal.Freshness,
 	ccReq internal.CCRequestDirectives,
+	refs internal.ResponseRefs,
+	refIndex int,
+	noCacheQualified bool,
+	noCacheFieldsSeq iter.Seq[string],
 ) (*http.Response, error) {
+	// The caller owns the response it is given, while the background
+	// revalidation keeps working on the stored entry (it merges a 304 into it
+	// and writes it back): hand the caller a private copy.
+	resp, err := cloneStoredResponse(stored.Data)
+	if err != nil {
+		// The stored body cannot be read: treat the entry as unusable.
+		return r.handleCacheMiss(req, urlKey, refs, refIndex)
+	}
 	req2 := req.Clone(req.Context())
 	req2 = withConditionalHeaders(req2, stored.Data.Header)
 	// Background revalidation is "best effort"; it is not guaranteed to complete
@@ -439,8 +461,15 @@ func (r *transport) handleStaleWhileRevalidate(
 	//
 	// Open a discussion at github.com/bartventer/httpcache/issues if your use case requires
 	// guaranteed completion.
-	go r.backgroundRevalidate(req2, stored, urlKey, freshness, ccReq)
-	internal.CacheStatusStale.ApplyTo(stored.Data.Header)
+	go r.backgroundRevalidate(req2, stored, urlKey, freshness, ccReq, refs, refIndex)
+	if noCacheQualified {
+		// Qualified no-cache: fields are not replayed without validation.
+		for field := range noCacheFieldsSeq {
+			resp.Header.Del(field)
+		}
+	}
+	internal.SetAgeHeader(resp, r.clock, freshness.Age)
+	internal.CacheStatusStale.ApplyTo(resp.Header)
 	r.logger.LogCacheStaleRevalidate(req, urlKey, internal.MiscFunc(func() internal.Misc {
 		return internal.Misc{
 			CCReq:     ccReq,
@@ -448,7 +477,7 @@ func (r *transport) handleStaleWhileRevalidate(
 			Freshness: freshness,
 		}
 	}))
-	return stored.Data, nil
+	return resp, nil
 }
 
 func (r *transport) backgroundRevalidate(
@@ -457,6 +486,8 @@ func (r *transport) backgroundRevalidate(
 	urlKey string,
 	freshness *internal.Freshness,
 	ccReq internal.CCRequestDirectives,
+	refs internal.ResponseRefs,
+	refIndex int,
 ) {
 	ctx, cancel := context.WithTimeout(req.Context(), r.swrTimeout)
 	defer cancel()
@@ -483,6 +514,10 @@ func (r *transport) backgroundRevalidate(
 			CCReq:     ccReq,
 			Stored:    stored,
 			Freshness: freshness,
+			// The index entries of the URL, so that storing the result updates
+			// this variant's entry and keeps the other variants.
+			Refs:     refs,
+			RefIndex: refIndex,
 		}
 		//nolint:bodyclose // The response is not used, so we don't need to close it.
 		_, err = r.vrh.HandleValidationResponse(revalCtx, req, resp, nil)
